@@ -112,7 +112,15 @@ def run_case(case):
 
 def _run(sim, case, r):
     missing = []
-    inst = SvsInst(BASE, ME, lambda i: missing.append(sim.vl.now_ms()), DigestSha256Signer(for_interest=True), pass_all,
+    cb_publishes = {'n': 0}
+
+    def on_missing(i):
+        missing.append(sim.vl.now_ms())
+        if case.get('publish_in_callback') and cb_publishes['n'] < 3:
+            # the application reacts to new data by producing some itself, from inside the (non-blocking) callback
+            cb_publishes['n'] += 1
+            cb_publishes['pending'] = i.new_data()
+    inst = SvsInst(BASE, ME, on_missing, DigestSha256Signer(for_interest=True), pass_all,
                    sync_interval=30, suppression_interval=0.2, last_used_seq_num=case['start_seq'])
     sim.vl.call(inst.start, sim.app)
     sim.vl.settle()
@@ -217,6 +225,10 @@ def _run(sim, case, r):
                 r.bad(f'C18/handler-raised/{kind}/{what}', f'{(sim.receive_errors or errs)[0]} entries={entries} flags={fl}')
                 return
             got = local_now()
+            if 'pending' in cb_publishes:
+                for a_ in allowed:
+                    a_[me_key] = a_.get(me_key, model[me_key]) + 1
+                flags.add('publish-in-callback')
             if got not in allowed:
                 if any(got.get(k_, 0) < v for k_, v in before.items()):
                     r.bad('C18/local-vector-decreased', f'{before} -> {got}')
@@ -228,10 +240,18 @@ def _run(sim, case, r):
                     r.bad('C18/merge-not-entrywise-max', f'{before} + {entries} -> {got}, expected {allowed[0]}')
                 return
             me_seq = model[me_key]
+            published_in_cb = cb_publishes.pop('pending', None)
             model.clear()
             model.update(got)
             model.setdefault(me_key, me_seq)
-            raised = any(got.get(k_, 0) > before.get(k_, 0) for k_ in got)
+            raised = any(got.get(k_, 0) > before.get(k_, 0) for k_ in got if k_ != me_key or published_in_cb is None)
+            if published_in_cb is not None:
+                em = emitted_since(n_sent)
+                if not em or nz(em[-1]) != nz(model):
+                    r.bad('C18/publish-in-callback-not-announced', f'published seq {published_in_cb} from the missing-data callback; '
+                          f'emitted {em[-1:] or "nothing"}; local {model}')
+                    return
+                sup = None
             cb = len(missing) - n_missing
             if cb != (1 if raised else 0):
                 r.bad(f'C18/missing-data-callback/{"not-called" if raised else "spurious"}', f'{cb} calls; {before} -> {got}')
@@ -333,11 +353,19 @@ def _ops():
         k = draw(st.integers(0, 2))
         core = core[k:] if k < 2 else core
         return draw(st.lists(anyop, max_size=3)) + core + draw(st.lists(anyop, max_size=4))
-    return st.one_of(free, free, free, template())
+    @st.composite
+    def template2(draw):
+        """A vector that is ignored for over-claiming own data is heard again, byte for byte, after this node has published
+        that data: now it must be merged (and the callback fired)."""
+        node = draw(st.sampled_from(['n1', 'n2']))
+        via = draw(st.sampled_from(['receive', 'handler']))
+        vec = {'op': 'recv', 'entries': [[node, 'abs', draw(st.sampled_from([3, 7])), None], ['me', 'abs', 9, None]], 'via': via, 'flags': []}
+        return draw(st.lists(anyop, max_size=2)) + [vec] + [{'op': 'publish'}] * 9 + [dict(vec)] + draw(st.lists(anyop, max_size=3))
+    return st.one_of(free, free, free, template(), template2())
 
 
 def _case():
-    return st.fixed_dictionaries({'start_seq': st.integers(0, 3), 'jitter': st.lists(st.integers(0, 65535), min_size=1, max_size=4),
+    return st.fixed_dictionaries({'start_seq': st.integers(0, 3), 'publish_in_callback': st.sampled_from([False, False, True]), 'jitter': st.lists(st.integers(0, 65535), min_size=1, max_size=4),
                                   'ops': _ops()})
 
 
